@@ -38,7 +38,47 @@ def run(ctx):
     ctx.rule(gammatone_frame)
     ctx.rule(fc.banks_stateless, "R-C07-pure")
     ctx.rule(gammatone_pair)
+    ctx.rule(gammatone_periods)
     ctx.rule(triangular_impulse)
+
+
+def gammatone_periods(ctx, R="R-C07-gammatone-pair"):
+    """The sampled gammatone response is the 2 pi-periodic sum of the closed form, res[k] = sum_p H(w_k + 2 pi p): what each turn of
+    the period loop adds to the result is H at the shifted grid, nothing else.  The increment is read by forward substitution at
+    the accumulating statement, so an image that was scaled, squared or rewritten through a view of its memory (`v = image.view(
+    np.float64); v *= v`) before it is added shows up as a different value."""
+    prog = ctx.prog
+    c = fc.bank(prog, "ComplexGammatoneFilterBank")
+    f = prog.own_method(c, "get_frequency_response")
+    ev = SymEval(prog, f).run()
+    rets = [r for r in astq.returns_of(f) if isinstance(r.value, ast.Name)]
+    ctx.need(len(rets) >= 1, R, "get_frequency_response does not return a named buffer")
+    res = rets[0].value.id
+    pm = astq.parents(f)
+    accs = [n for n in f.body_nodes() if isinstance(n, ast.AugAssign) and astq.is_name(n.target, res) and any(isinstance(a, ast.For) for a in astq.ancestors(pm, n))]
+    ctx.need(len(accs) >= 1, R, "no accumulation into the returned buffer inside the period loop")
+    what = "each period adds H(omega + 2 pi p) for the filter asked for, unaltered"
+    for a in accs:
+        lp = [x for x in astq.ancestors(pm, a) if isinstance(x, ast.For)][0]
+        pv = lp.target.id if isinstance(lp.target, ast.Name) else None
+        v = ev.eval_at(a, a.value)
+        om = ev.eval_at(a, ast.parse("omega", mode="eval").body) if any(isinstance(x, ast.Name) and x.id == "omega" for x in f.body_nodes()) else None
+        hs = [x for x in S.walk(v) if isinstance(x, S.E) and x.op == "call" and x.args[0] == "._H"]
+        if not isinstance(a.op, ast.Add):
+            ctx.bad(R, f, a, "the period loop accumulates %s with `%s=`" % (S.show(v)[:100], type(a.op).__name__), what)
+            continue
+        if not hs:
+            ctx.error(R, "cannot decide what the period loop adds: the closed form is not evaluated through self._H (%s)" % S.show(v)[:120])
+            continue
+        h = hs[0]
+        ok = v == h and len(h.args) == 4 and h.args[3] == S.sym(f.params[1])
+        if ok and pv is not None:
+            # the grid is shifted by whole periods: H's argument minus 2 pi p does not mention p
+            rest = S.sub(h.args[2], S.mul(S.mul(S.lift(2), S.PI), S.sym(pv)))
+            r = S.compare(S.subst(rest, {pv: S.lift(3)}), S.subst(rest, {pv: S.lift(-2)}), domain={})
+            ok = r["verdict"] == "equal"
+        ctx.check(ok, R, f, a, what, "what is added per period is %s" % S.show(v)[:220], robust=(v != h and any(
+            isinstance(x, S.E) and x.op == "call" and x.args[0] == "updated_through" for x in S.walk(v))))
 
 
 def realness(ctx, R="R-C07-realness"):
